@@ -295,6 +295,8 @@ class V:
         axes = broadcast_axes(a.axes, b.axes, "/")
         at, bt = real(a.t), real(b.t)
         series = a.series if a.series is not None else b.series
+        if a.series is not None and b.series is not None and a.series != b.series:
+            raise Undecided(f"/ on two Series with different indexes ({a.series} vs {b.series}): label alignment")
         zero = z3.simplify(bt == 0)
         nan, inf = a.nan, a.inf
         nan = _or(nan, b.nan)
